@@ -95,9 +95,12 @@ static ares_status_t ares_search_next(ares_channel_t      *channel,
   status = ares_send_nolock(channel, NULL, 0, squery->dnsrec, search_callback,
                             squery, NULL);
 
-  if (status != ARES_EFORMERR) {
-    *skip_cleanup = ARES_TRUE;
-  }
+  /* ares_send_nolock() always reports failure through the callback before
+   * returning, whatever the status code (it can return ARES_EFORMERR itself,
+   * e.g. when the candidate name cannot be encoded).  search_callback() has
+   * then already completed or advanced the search, so the caller must never
+   * clean up once we got this far. */
+  *skip_cleanup = ARES_TRUE;
 
   return status;
 }
